@@ -218,6 +218,24 @@ def gen_scenario(rng, strategy=None, n_gc=None, feasible=True, features=None, ma
                     "start_time": iso(st), "grid_connector_id": g,
                     "max_power": lf * rating})
                 k += 1
+        if interval >= 10 and feat("same_step_pair", 0.25):
+            # two signals that take effect in the SAME step, the one with the earlier start announced LATER (signal time =
+            # its start, i.e. delivered in the very step in which both become due): the one with the later start must end up
+            # in force (seeded changes C10-i1 / C04-i1: due events applied in delivery order instead of start order)
+            i = rng.randint(1, max(1, n_steps - 1))
+            t_i = start + datetime.timedelta(minutes=interval * i)
+            a_start = t_i - datetime.timedelta(minutes=rng.choice([1, 2, 4]))
+            b_start = t_i - datetime.timedelta(minutes=rng.choice([5, 6, interval - 1]))
+            if rng.random() < 0.5:
+                va, vb = {"cost": {"type": "fixed", "value": 0.5}}, {"cost": {"type": "fixed", "value": -0.05}}
+            else:
+                va, vb = {"max_power": 0.4 * rating}, {"max_power": 1.0 * rating}
+            if rng.random() < 0.5:
+                va, vb = vb, va
+            ev["grid_operator_signals"].append(dict(
+                signal_time=iso(start - datetime.timedelta(hours=1)), start_time=iso(a_start), grid_connector_id=g, **va))
+            ev["grid_operator_signals"].append(dict(
+                signal_time=iso(b_start), start_time=iso(b_start), grid_connector_id=g, **vb))
         if feat("price_signal", 0.5) or strategy == "balanced_market":
             for i in range(0, n_steps, rng.choice([2, 4, 8])):
                 st = start + datetime.timedelta(minutes=interval * i)
